@@ -22,6 +22,7 @@ import tempfile
 from typing import Protocol, runtime_checkable
 
 from .. import env, jsonx
+from ..ref import sigmsg
 from ..ref import isa
 
 ID = 'C19'
@@ -348,6 +349,9 @@ def run_prog(prog, **kw):
         return None, e
 
 
+_PROBE_PK = sigmsg.pubkey(bytes(range(32)))
+
+
 def probe_state(deep=True):
     """behavioural view of the registries (a Model.key()-shaped tuple)"""
     functions, parsing, tools, _, _ = env.mods()
@@ -358,6 +362,23 @@ def probe_state(deep=True):
     run_prog(isa.push(b'hello') + O('CHECK_TEMPLATE') + b'\x01',
              additional_flags={10: False})
     fired1 = list(Fired.log)
+    # every signature-related instruction uses the active extensions, under
+    # the default flags: CHECK_TEMPLATE (its own plugins fire as well), SIGN,
+    # CHECK_SIG, CHECK_MULTISIG
+    scope1 = set(fired1)
+    base0 = list(fired0)
+    for nm, prog in (
+            ('CHECK_TEMPLATE', isa.push(b'hello') + O('CHECK_TEMPLATE')
+             + b'\x01'),
+            ('SIGN', isa.push(bytes(range(32))) + O('SIGN') + b'\x00'),
+            ('CHECK_SIG', isa.push(bytes(64)) + isa.push(_PROBE_PK)
+             + O('CHECK_SIG') + b'\x00'),
+            ('CHECK_MULTISIG', isa.push(bytes(64)) + isa.push(_PROBE_PK)
+             + O('CHECK_MULTISIG') + b'\x00\x01\x01')):
+        run_prog(prog)
+        want_names = set(base0) | (scope1 if nm == 'CHECK_TEMPLATE' else set())
+        if set(Fired.log) != want_names:
+            fired0 = fired0 + [f'{nm}-USES-{sorted(set(Fired.log))}']
     # the application's own scope, used the way an added instruction uses it:
     # run_plugins on the tape of a run
     Fired.log = []
@@ -807,6 +828,9 @@ def judge_history(ctx, hist):
                                             digest_size=8).digest())
 
 
+PLUGIN_STRIDE = {('quick', 4): 24, ('thorough', 5): 16}
+
+
 def run_shard(spec, ctx):
     i, of = spec['shard'], spec['of']
     tier = ctx.tier
@@ -821,13 +845,17 @@ def run_shard(spec, ctx):
                 idx += 1
                 if idx % of != i:
                     continue
-                if name == 'plugins' and tier == 'quick' and n == 4 \
-                        and idx % (of * 4) != i:
-                    continue            # quick: a quarter of the length-4 set
+                # 21 plugin actions (3 scopes): the longest length is
+                # sampled with a stride, everything shorter is exhaustive
+                stride = PLUGIN_STRIDE.get((tier, n), 1) \
+                    if name == 'plugins' else 1
+                if stride > 1 and idx % (of * stride) != i:
+                    continue
                 judge_history(ctx, hist)
         ctx.exhaustive(f'{name}: all histories up to length {maxlen}'
-                       + (' (length 4 plugins: every 4th in quick)'
-                          if name == 'plugins' and tier == 'quick' else ''))
+                       + (f' (plugins: length {maxlen} every '
+                          f'{PLUGIN_STRIDE[(tier, maxlen)]}th)'
+                          if name == 'plugins' else ''))
     allacts = plugin_actions() + contract_actions() + iface_actions() \
         + other_actions()
     nr = (300 if tier == 'quick' else 20000) // of
